@@ -353,6 +353,7 @@ package ugo
 //@ ensures[reuseclr] err == nil && vm.curFrame == old(vm.curFrame) ==> forall k int :: vm.sp <= k && k <= old(vm.sp) ==> vm.stack[k] == nil
 //@ ensures[fresh]  err == nil && vm.curFrame != old(vm.curFrame) ==> vm.curFrame.errHandlers == nil && vm.curFrame.fn == cfunc && vm.curFrame.basePointer == old(vm.sp)-numArgs && vm.ip == -1 && vm.sp == old(vm.sp)-numArgs+cfunc.NumLocals
 //@ ensures[error]  err != nil ==> vm.curFrame == old(vm.curFrame) && vm.ip == old(vm.ip)
+//@ ensures[errorfi] err != nil ==> vm.frameIndex == old(vm.frameIndex) && vm.sp == old(vm.sp)
 //@ ensures[bind]     err == nil && flags == 0 ==> forall i int :: 0 <= i && i < specFixedParams(cfunc) ==> vm.stack[vm.curFrame.basePointer+i] == old(verifrt.Snap(vm.stack[:]))[old(vm.sp)-numArgs+i]
 //@ ensures[bindrest] err == nil && flags == 0 && cfunc.Variadic && cfunc.NumParams >= 1 ==> specVarArgs(vm.stack[vm.curFrame.basePointer+cfunc.NumParams-1], old(verifrt.Snap(vm.stack[:]))[old(vm.sp)-numArgs+cfunc.NumParams-1:old(vm.sp)])
 //@ ensures[bindfresh] err == nil && flags == 0 && cfunc.Variadic && cfunc.NumParams >= 1 && vm.curFrame != old(vm.curFrame) ==> specFreshArray(vm.stack[vm.curFrame.basePointer+cfunc.NumParams-1], vm.stack[:], vm.stack[:])
